@@ -24,6 +24,7 @@ type Gen struct {
 	Texts    []string
 	Base     string // id prefix
 	NoLinks  bool   // do not generate links (for monitors whose pool excludes them)
+	Queries  bool   // give a third of the IRIs a query string
 	GenericT bool   // allow the generic type names (Object, Activity, Actor, IntransitiveActivity)
 }
 
@@ -39,7 +40,11 @@ var genPaths = []string{"", "/users/jdoe", "/o/x%20y", "/a/b/c", "/~x"}
 // IRI returns a fresh absolute URL, distinct from every other one this generator returned.
 func (g *Gen) IRI() vocab.IRI {
 	g.n++
-	return vocab.IRI(fmt.Sprintf("https://%s%s/%d", genHosts[g.R.Intn(len(genHosts))], genPaths[g.R.Intn(len(genPaths))], g.n))
+	q := ""
+	if g.Queries && g.R.Intn(3) == 0 {
+		q = "?a=1&b=2"
+	}
+	return vocab.IRI(fmt.Sprintf("https://%s%s/%d%s", genHosts[g.R.Intn(len(genHosts))], genPaths[g.R.Intn(len(genPaths))], g.n, q))
 }
 
 func (g *Gen) Text() vocab.Content { return vocab.Content(g.Texts[g.R.Intn(len(g.Texts))]) }
